@@ -98,7 +98,7 @@ func TestC01(t *testing.T) {
 	r := evid.Start("C01", "exploration")
 	defer r.Finish(t)
 	r.Assume("refmodel + independent glob matcher are the meaning of the property",
-		"for a request that is both unauthorised and ill-formed (empty name on put/activate, version 0, reserved prefix on a mutation) either the denied class or another error class is accepted")
+		"for a request that is both unauthorised and ill-formed (empty name on put/activate, version 0, reserved prefix on a mutation) either the denied class or another error class is accepted; a reserved-prefix name is a name like any other (refusal must be access-denied)")
 	dir := evid.TempDir(t)
 	nCases := r.N(600, 8000)
 	const addr = "100.64.0.2:4711"
@@ -194,6 +194,15 @@ func TestC01(t *testing.T) {
 				for ci, op := range calls {
 					if op.Kind == ops.Put {
 						markers = append(markers, op.Value)
+					}
+					if ci == len(calls)/2 {
+						// policy changes: from now on the same caller, at the same address, holds other rules
+						rules = genRules(rng)
+						caller = realdb.Caller("eve@verif", rules)
+						who = httpdrv.Who{Login: "eve@verif", Node: "eve.verif", Rules: rules}
+						lv[1].srv.SetWho(addr, who)
+						lv[1].tsrv.SetWho(addr, who)
+						r.Count("rule_changes_mid_case", 1)
 					}
 					for _, l := range lv {
 						pre := l.m.Clone()
@@ -303,7 +312,7 @@ func TestC01(t *testing.T) {
 		}
 		concurrentPeers(t, r, dir)
 	}
-	r.Require("concurrent_peer_replies", "concurrent_denied_calls", "cases", "allowed_calls", "denied_calls", "denied_on_existing", "denied_on_absent")
+	r.Require("rule_changes_mid_case", "concurrent_peer_replies", "concurrent_denied_calls", "cases", "allowed_calls", "denied_calls", "denied_on_existing", "denied_on_absent")
 	r.Rule("case = (database state reached by 4-13 random superuser operations over a hostile 12-name pool incl. empty, reserved, newline, literal-'*' and path-like ('a/../b', 'a//b', 'a/b/') names; 0-3 random rules over the 5 actions (+unknown ones) and 23 exact/wildcard/regexp-meta patterns); then all 9 operations x all 8 names x versions {0,1,2,9} in random order, at the DB API and through the HTTP handlers. Distinct = (level, operation, authorised?, secret exists?, model outcome class, rule count)")
 }
 
